@@ -2195,6 +2195,9 @@ bool CDNS::CdnsBlock::add_malformed_message(const GenericMalformedMessage& gmm,
 bool CDNS::CdnsBlock::add_malformed_message(const MalformedMessage& mm,
                                             const boost::optional<BlockStatistics>& stats)
 {
+    if (!(m_block_parameters.storage_parameters.storage_hints.other_data_hints & OtherDataHintsMask::malformed_messages))
+        return false;
+
     std::size_t fields = !!mm.time_offset + !!mm.client_address_index + !!mm.client_port
                             + !!mm.message_data_index;
 
